@@ -195,3 +195,94 @@ func concurrentListings(d Directed, v *vt.V) {
 func ocispecDesc(mt string, data []byte) ociregistry.Descriptor {
 	return ociregistry.Descriptor{MediaType: mt, Digest: digest.FromBytes(data), Size: int64(len(data))}
 }
+
+// stalledReader delivers its content only once gate is closed, and says when it was first asked.
+type stalledReader struct {
+	data    []byte
+	gate    chan struct{}
+	entered chan struct{}
+	once    sync.Once
+}
+
+func (r *stalledReader) Read(p []byte) (int, error) {
+	r.once.Do(func() { close(r.entered) })
+	<-r.gate
+	if len(r.data) == 0 {
+		return 0, io.EOF
+	}
+	n := copy(p, r.data)
+	r.data = r.data[n:]
+	return n, nil
+}
+
+// stalledPush: a PushBlob (direct, or a single-request upload over HTTP) whose content source stalls
+// is one caller's business: other callers' operations complete meanwhile.
+func stalledPush(d Directed, v *vt.V) {
+	mem := ocimem.New()
+	other := []byte("content of another repository")
+	mem.PushBlob(ctx, "other", ocispecDesc("application/octet-stream", other), bytes.NewReader(other))
+	srv := memnet.NewServer(ociserver.New(mem, nil))
+	defer srv.Close()
+	client := srv.Client()
+	for i := 0; i < max(d.Iters/100, 2); i++ {
+		data := bytes.Repeat([]byte{byte(i)}, max(d.Size, 1))
+		desc := ocispecDesc("application/octet-stream", data)
+		overHTTP := i%2 == 1
+		r := &stalledReader{data: data, gate: make(chan struct{}), entered: make(chan struct{})}
+		pushed := make(chan error, 1)
+		go func() {
+			if overHTTP {
+				req, _ := http.NewRequest("POST", srv.URL+"/v2/foo/blobs/uploads/?digest="+string(desc.Digest), r)
+				req.ContentLength = desc.Size
+				req.Header.Set("Content-Type", "application/octet-stream")
+				resp, err := client.Do(req)
+				if err == nil {
+					resp.Body.Close()
+					if resp.StatusCode != 201 {
+						err = fmt.Errorf("status %d", resp.StatusCode)
+					}
+				}
+				pushed <- err
+				return
+			}
+			_, err := mem.PushBlob(ctx, "foo", desc, r)
+			pushed <- err
+		}()
+		select {
+		case <-r.entered:
+		case <-time.After(10 * time.Second):
+			v.Failf("harness", "the content source of the push was never read")
+			close(r.gate)
+			return
+		}
+		if overHTTP {
+			time.Sleep(2 * time.Millisecond) // let the request reach the handler
+		}
+		others := make(chan error, 1)
+		go func() {
+			if _, err := mem.ResolveBlob(ctx, "other", digest.FromBytes(other)); err != nil {
+				others <- err
+				return
+			}
+			_, err := ociregistry.All(mem.Repositories(ctx, ""))
+			others <- err
+		}()
+		select {
+		case err := <-others:
+			if err != nil {
+				v.Failf("stalled-push-disturbs-others", "while a push into foo waits for its content (over HTTP: %v), reading repository other failed: %v", overHTTP, err)
+				close(r.gate)
+				return
+			}
+		case <-time.After(10 * time.Second):
+			v.Failf("registry-blocked-by-stalled-push", "while a push of %d bytes into foo waits for its content source (over HTTP: %v), ResolveBlob and Repositories on another repository have not returned within 10 s", len(data), overHTTP)
+			close(r.gate)
+			return
+		}
+		close(r.gate)
+		if err := <-pushed; err != nil {
+			v.Failf("stalled-push-failed", "push whose content arrived late (over HTTP: %v): %v", overHTTP, err)
+			return
+		}
+	}
+}
